@@ -203,4 +203,25 @@ mod __verif_e2e {
             }
         }
     }
+
+    /// C21 candidate: a group whose key is NULL and whose aggregated inputs are all NULL must still be one output row.
+    #[test]
+    fn e2e_c21_null_key_all_null_inputs_group_exists() {
+        let dir = tempfile::tempdir().unwrap();
+        let schema = Arc::new(Schema::new(vec![
+            Field::new("k", DataType::Int64, true),
+            Field::new("v", DataType::Int64, true),
+        ]));
+        let k: ArrayRef = Arc::new(Int64Array::from(vec![None, Some(5), None]));
+        let v: ArrayRef = Arc::new(Int64Array::from(vec![None, Some(1), None]));
+        let batch = RecordBatch::try_new(schema, vec![k, v]).unwrap();
+        let p = write_parquet(dir.path(), "t.parquet", &batch);
+        for morsel in [false, true] {
+            let ctx = ctx_with(&p, true, morsel);
+            let got = rows(&ctx, "SELECT k, COUNT(v), MAX(v) FROM t GROUP BY k");
+            let mut want = vec!["5|1|1".to_string(), "|0|".to_string()];
+            want.sort();
+            assert_eq!(got, want, "GROUP BY k (morsel={morsel}): the NULL-key group with only NULL inputs must be returned");
+        }
+    }
 }
